@@ -35,6 +35,12 @@ VERIF = os.path.dirname(HERE)
 CACHE = os.path.join(VERIF, '.cache')
 RUN_TIMEOUT_S = 120
 BUILD_TIMEOUT_S = 1800
+MAX_DIFFS_SHOWN = 12        # a mismatch report stays below ~40 lines: 2 lines per difference + ~8 of frame
+MAX_VALUE_CHARS = 300
+
+
+def clip(s):
+    return s if len(s) <= MAX_VALUE_CHARS else s[:MAX_VALUE_CHARS] + '... (%d chars)' % len(s)
 
 
 def out(s=''):
@@ -74,6 +80,38 @@ def write_if_changed(path, text):
     return True
 
 
+def seed_target(tdir, h):
+    """A new checkout starts from a copy of an already built target dir (preferably /repo's): the ~150
+    registry crates are identical and stay fresh, only the path crates of the checkout are compiled
+    (about 1 min instead of 3).  Purely an optimisation: any failure just means a full build."""
+    troot = os.path.join(CACHE, 'replay_target')
+    first = hashlib.sha1(os.path.realpath('/repo').encode()).hexdigest()[:12]
+    try:
+        cands = [d for d in sorted(os.listdir(troot), key=lambda d: (d != first, d))
+                 if d != h and '.' not in d and os.path.isdir(os.path.join(troot, d, 'debug', 'deps'))]
+    except OSError:
+        return
+    for d in cands:
+        lk_path = os.path.join(CACHE, 'replay_build', d, '.lock')
+        if not os.path.exists(lk_path):
+            continue
+        lk = open(lk_path, 'w')
+        try:
+            try:
+                fcntl.flock(lk, fcntl.LOCK_EX | fcntl.LOCK_NB)     # not while somebody builds into it
+            except OSError:
+                continue
+            tmp = '%s.seed%d' % (tdir, os.getpid())
+            shutil.rmtree(tmp, ignore_errors=True)
+            r = subprocess.run(['cp', '-a', '--reflink=auto', os.path.join(troot, d), tmp], capture_output=True)
+            if r.returncode == 0 and not os.path.exists(tdir):
+                os.rename(tmp, tdir)
+                return
+            shutil.rmtree(tmp, ignore_errors=True)
+        finally:
+            lk.close()
+
+
 def build(repo):
     """returns (binary path, seconds spent in cargo); exits 2 on failure"""
     repo = os.path.realpath(repo)
@@ -84,10 +122,12 @@ def build(repo):
     bdir = os.path.join(CACHE, 'replay_build', h)
     tdir = os.path.join(CACHE, 'replay_target', h)
     os.makedirs(bdir, exist_ok=True)
-    os.makedirs(tdir, exist_ok=True)
     lock = open(os.path.join(bdir, '.lock'), 'w')
     fcntl.flock(lock, fcntl.LOCK_EX)
     try:
+        if not os.path.isdir(os.path.join(tdir, 'debug')):
+            seed_target(tdir, h)
+        os.makedirs(tdir, exist_ok=True)
         with open(os.path.join(HERE, 'Cargo.toml.in')) as f:
             tmpl = f.read()
         write_if_changed(os.path.join(bdir, 'Cargo.toml'), tmpl.replace('@REPO@', repo))
@@ -136,7 +176,7 @@ def build(repo):
             die('cannot start cargo: %s' % e)
         secs = time.time() - t0
         if p.returncode != 0:
-            tail = '\n'.join((p.stdout + p.stderr).splitlines()[-60:])
+            tail = '\n'.join((p.stdout + p.stderr).splitlines()[-30:])
             die('cargo build failed for VERIF_REPO=%s (toolchain %s, build dir %s, %.0fs):\n%s'
                 % (repo, env['RUSTUP_TOOLCHAIN'], bdir, secs, tail))
         binp = os.path.join(tdir, 'debug', 'verif_replay')
@@ -168,6 +208,17 @@ def norm(v):
         return [norm(x) for x in v]
     if isinstance(v, dict):
         return {k: (x if k.endswith('_hex') else norm(x)) for k, x in v.items()}
+    return v
+
+
+def show(v):
+    """display form of a normalised value: integer strings print as plain numbers"""
+    if isinstance(v, str) and INT_RE.match(v):
+        return int(v)
+    if isinstance(v, list):
+        return [show(x) for x in v]
+    if isinstance(v, dict):
+        return {k: show(x) for k, x in v.items()}
     return v
 
 
@@ -323,9 +374,12 @@ def main():
         out('  REPRODUCED: native execution matches the prediction on %s' % ', '.join(sorted(pred)))
         sys.exit(1)
     out('  NOT REPRODUCED: %d difference(s) between prediction and native execution' % len(diffs))
-    for (where, pv, ov) in diffs:
-        out('    %-28s predicted %s' % (where, json.dumps(pv)))
-        out('    %-28s observed  %s' % ('', json.dumps(ov)))
+    shown = diffs[:MAX_DIFFS_SHOWN]
+    for (where, pv, ov) in shown:
+        out('    %-28s predicted %s' % (where, clip(json.dumps(show(pv)))))
+        out('    %-28s observed  %s' % ('', clip(json.dumps(show(ov)))))
+    if len(diffs) > len(shown):
+        out('    ... %d more difference(s) not shown (run with --observe to see everything)' % (len(diffs) - len(shown)))
     agree = [k for k in sorted(pred) if not any(w == k or w.startswith(k + '.') or w.startswith(k + '[') for (w, _, _) in diffs)]
     if agree:
         out('    (agreeing: %s)' % ', '.join(agree))
